@@ -43,4 +43,6 @@ VARIANTS = [
     V("spectrogram-time-axis-gets-frequency-variable", "src/soundevent/audio/spectrograms.py", "            Dimensions.frequency.value: create_frequency_dim_from_array(", "            Dimensions.time.value: create_frequency_dim_from_array(", "R15.7",
       also=(("src/soundevent/audio/spectrograms.py", "            Dimensions.time.value: create_time_dim_from_array(", "            Dimensions.frequency.value: create_time_dim_from_array("),)),
     V("N-recording-axes-from-the-coordinate-mapping", "src/soundevent/audio/io.py", "        dims=(Dimensions.time.value, Dimensions.channel.value),\n", "", None, occurrence=0),
+    # G.12
+    V("long-clip-rejected(G.12)", "src/soundevent/audio/io.py", "    recording = clip.recording\n    samplerate = recording.samplerate", "    if clip.duration > 3600:\n        raise ValueError(\"Clips longer than one hour are not loaded.\")\n\n    recording = clip.recording\n    samplerate = recording.samplerate", "G.12"),
 ]
